@@ -66,7 +66,7 @@ class StreamingDetector(ABC):
                     raise ValueError(
                         "Columns of new data must match with columns of prior data."
                     )
-            ary = X.values
+            ary = np.array(X.values)  # a copy: never keep a view of the caller's data
         else:
             ary = copy.copy(X)
             ary = np.array(ary)
@@ -247,7 +247,7 @@ class BatchDetector(ABC):
                     raise ValueError(
                         "Columns of new data must match with columns of prior data."
                     )
-            ary = X.values
+            ary = np.array(X.values)  # a copy: never keep a view of the caller's data
         else:
             ary = copy.copy(X)
             ary = np.array(ary)
